@@ -17,6 +17,7 @@ and nothing else); the harness checks them on the real code on every call it mak
 -/
 import DefconModel.Lemmas.NameSort
 import DefconModel.Lemmas.NameSortTables
+import DefconModel.Lemmas.NameSortMagnets
 
 namespace DefconModel.Props.C20
 open DefconModel DefconModel.NameSort List
@@ -173,6 +174,18 @@ theorem manual_matched_sub (env : Env) (pseudo : Bool) (names : List Name) (pair
     (hnd : pairGroup.Nodup) :
     SubMultiset (pairGroup.flatMap (fun u => bucketOf (buckets (valueFor env pseudo) [] names) (some u))) names :=
   matched_count_le env pseudo names pairGroup hnd
+
+/-- `_sortByWeightedSuffix`: the dict look-up `suffixToMagnet[suffix]` finds an entry for every suffixed
+name of every list (no round of the magnet loop overwrites the entry of an earlier round), so the sort
+cannot raise `KeyError` and the model's fall-back value in `magnetOf` is never used. -/
+theorem weighted_lookup_total (names : List Name) (n : Name) (hn : n ∈ names) (hs : isPlain n = false) :
+    AL.get? (suffixToMagnet (names.filter (fun n => !isPlain n))) (suffixOf n) =
+      some (magnetOf (suffixToMagnet (names.filter (fun n => !isPlain n))) n) :=
+  magnetOf_eq_lookup _ n (mem_filter.mpr ⟨hn, by simp [hs]⟩)
+
+example : suffixToMagnet ["a.alt", "b.ALT", "c.alt1", "d.001", "e.0012", "f.sc"] =
+    [("001", "001"), ("0012", "001"), ("ALT", "ALT"), ("alt", "ALT"), ("alt1", "alt1"), ("sc", "sc")] := by
+  decide +kernel
 
 /-- The `while glyphNames` loop of the container-partner pass ends within one round per name: the fuel
 the model gives it (the length of the list) is enough, more changes nothing. -/
